@@ -234,7 +234,7 @@ PROPS['C05'] = {
     'quick_configs': ['default'],
     'thorough_configs': ALL,
     'controls': ['A5.1', 'A5.2'],
-    'floors': {'default': {'A5.1': 3, 'A5.2': 4, 'X2': 4}},
+    'floors': {'default': {'A5.1': 3, 'A5.2': 4, 'X2': 4, 'A5.6': 15}},
     'rule_text': 'one obligation per FAT-mutator call site made on behalf of a FileSystem (must be followed by a counter '
                  'update on every Ok path, using the returned delta), per assignment to a persisted counter inside '
                  'FsInfoSector (must latch dirty), per encoder field, per recount/ dirty-mount / reclaim condition, and per '
@@ -244,13 +244,15 @@ PROPS['C05'] = {
                    'A5.3 the FS-info encoder writes both counters, A5.4 the lazy recount scans total_clusters, stores and '
                    'returns the result and runs exactly on the `count absent` arm, A5.5 a dirty mount discards the stored '
                    'count, A5.8 remove frees the chain before deleting slots and truncate releases the rest of the chain, '
-                   'X2 every FAT32 entry test in get/find_free/count_free masks the reserved nibble. Does not decide the '
+                   'X2 every FAT32 entry test in get/find_free/count_free masks the reserved nibble, A5.6 every overflow / '
+                   'division site of the counter arithmetic (n + delta, n - 1, recount) is discharged by the interval '
+                   'analysis or a reasoned entry whose anchor comparison is checked in the code. Does not decide the '
                    'numerical equality count == free FAT entries over histories (arithmetic), nor that the hint is in '
                    'range.',
     'claim': 'Structural necessary conditions of the accounting on all paths (who must update the counter, with what, '
              'and when it is persisted or distrusted); the numerical invariant itself is not decided.',
-    'level_note': 'counter arithmetic (n + delta, n - 1) is covered by the panic-site inventory only where stated in '
-                  'DESIGN.md; the returned deltas are trusted to be correct counts',
+    'level_note': 'counter arithmetic (n + delta, n - 1) is covered by the panic-site inventory (A5.6); the returned '
+                  'deltas are trusted to be correct counts',
     'technique': 'static analysis: must-pass-through / dominance / data-dependence rules on MIR',
     'assumptions': COMMON_ASSUMPTIONS,
 }
@@ -288,7 +290,7 @@ PROPS['C15'] = {
     'quick_configs': ['default', 'noalloc'],
     'thorough_configs': ALL,
     'controls': ['N1'],
-    'floors': {'default': {'N1': 6, 'N3.chars': 1, 'N3.len': 1, 'N6': 1, 'N5': 2}},
+    'floors': {'default': {'N1': 6, 'N3.chars': 1, 'N3.len': 1, 'N6': 1, 'N5': 2, 'N2': 60}},
     'rule_text': 'obligations: one per instance of create_file/create_dir/rename (two-state protocol: no unguarded device '
                  'write before a name validator\'s Ok edge), the accepted-character table over all 0x110000 code points, '
                  'the length table over all usize lengths, the accepted long-name sequence numbers, the buffer capacity '
@@ -300,9 +302,11 @@ PROPS['C15'] = {
                    'destroying the source on an invalid name). N3: the decision table of the validator over every code '
                    'point equals the documented long-name set exactly, lengths accepted are exactly 1..=255. N6: the '
                    'long-name decoder accepts exactly the sequence numbers 1..=ceil(255/13) the encoder can emit. N4/N5: '
-                   'capacity constants; both operands of the comparisons are case-folded. Not decided: lossless '
-                   'round-trip and case-insensitive matching of actual strings (runtime), panic-freedom of the name path '
-                   '(see C17/C07 inventory).',
+                   'capacity constants; both operands of the comparisons are case-folded. N2: every panic site (slicing, '
+                   'indexing, arithmetic, unwrap) of the name path - split_path, validation, short-name generation, the '
+                   'long-name buffer and slot generator, existence check, entry writing - is discharged by the interval '
+                   'analysis or a reasoned entry (this is the rule that reports `name[1..]` on a multi-byte first '
+                   'character). Not decided: lossless round-trip and case-insensitive matching of actual strings.',
     'claim': 'Validate-before-side-effect on all paths (protocol proof over the call graph), exact accepted character set '
              'and length bounds, reader/writer agreement on slot counts. Round-trip equality is not decided.',
     'level_note': 'validators are identified by the public error variants they construct; a write behind a write-back latch '
